@@ -32,6 +32,9 @@ fn main() {
     let seed: u64 = args[3].parse().unwrap_or(1);
     let outdir = &args[4];
     install_quiet_panic_hook();
+    if !prop.ends_with("-point") {
+        start_watchdog(prop.to_string(), outdir.clone());
+    }
     let mut rng = Rng::new(seed ^ fnv(prop.as_bytes()));
     if prop == "memprobe2" {
         use std::io::Write;
